@@ -8,7 +8,7 @@ import (
 
 func init() { register("C08", checkC08) }
 
-var c08Origins = []string{"literal", "literal-raw", "file", "stdin", "cmd"}
+var c08Origins = []string{"literal", "literal-raw", "file", "stdin", "stdin-prompt", "cmd"}
 var c08Paths = []string{"print", "assign", "concat", "compare", "arg", "return", "slice-store", "slice-literal", "slice-load-copy", "range-string", "range-slice", "subscript", "len", "write"}
 
 // c08Program builds the program for one (origin, path) with value v. ok=false
@@ -17,7 +17,7 @@ func c08Program(origin, path, v string) (bc BashCase, ok bool) {
 	stmts := []Stmt{}
 	pre := map[string]string{}
 	stdin := ""
-	runtime := origin == "file" || origin == "stdin" || origin == "cmd"
+	runtime := origin == "file" || origin == "stdin" || origin == "stdin-prompt" || origin == "cmd"
 	if runtime && strings.HasSuffix(v, "\n") {
 		return bc, false // the origin APIs are specified to drop a trailing newline (C17/C18)
 	}
@@ -38,6 +38,12 @@ func c08Program(origin, path, v string) (bc BashCase, ok bool) {
 		}
 		stdin = v + "\n"
 		stmts = append(stmts, def("v", Input{}))
+	case "stdin-prompt":
+		if strings.Contains(v, "\n") {
+			return bc, false
+		}
+		stdin = v + "\n"
+		stmts = append(stmts, def("v", Input{Prompt: sl("value: ")}))
 	case "cmd":
 		pre["in.txt"] = v + "\n"
 		stmts = append(stmts, VarDecl{Names: []string{"v", "ve", "vc"}, Short: true, Values: []Expr{AppCall{[]AppStage{{Name: "cat", Args: []Expr{sl("in.txt")}}}}}})
